@@ -272,13 +272,13 @@ Section Boundary.
 
   (* `blots -i <doc> 'output <name> = inputs.<key>'` — the echo program of property C06:
      the document is deserialised (sj_build), turned into the inputs record, the member is
-     looked up (record access; a missing key is an evaluation error), validated as portable
-     (always true for data), serialised and written. *)
+     looked up (record access; a missing key reads as null), validated as portable (always true
+     for data), serialised and written. *)
   Definition cli_echo (doc : json) (key name : string) : outcome json :=
     do inputs <- fst (parse_json_inputs (sj_build doc) 0);
     match rec_get inputs key with
     | Some v => do s <- from_value v; Ok (write_outputs [(name, s)])
-    | None => Err
+    | None => Ok (write_outputs [(name, SNull)])
     end.
 
   (* the other direction: a program outputs value v under [name]; the printed document is fed
@@ -288,7 +288,7 @@ Section Boundary.
     do inputs <- fst (parse_json_inputs (sj_build (write_outputs [(name, s)])) 0);
     match rec_get inputs name with
     | Some v' => Ok v'
-    | None => Err
+    | None => Ok VNull
     end.
 End Boundary.
 
